@@ -62,14 +62,18 @@ var vGrowFn = interpreter.VerifFuncSpec{Params: []byte{i32}, Body: []byte{0x20, 
 // if/else join; plus memory.size / memory.grow results themselves.
 //verif:opts split=shape:11 obl-timeout=240000 wall=1500
 func VerifC02_SSA_Reuse() {
+	shape := verifrt.Choose("shape", 11)
 	offs := vOffs()
+	if shape >= 8 {
+		offs = vOffsetsQuick // the shapes with three independent offsets use the boundary set in both tiers (5^3 programs)
+	}
 	o1 := offs[verifrt.Choose("off1", len(offs))]
 	o2 := offs[verifrt.Choose("off2", len(offs))]
 	ld1 := cat(lg(0), []byte{0x2d}, memarg(o1)) // i32.load8_u base+o1
 	ld2 := cat(lg(0), []byte{0x2d}, memarg(o2))
 	ldw := cat(lg(0), []byte{0x28}, memarg(o2)) // i32.load (wider) base+o2
 	var p vProgram
-	switch verifrt.Choose("shape", 11) {
+	switch shape {
 	case 10: // the base is i32.wrap_i64 of an i64 parameter (any upper half), accessed in both arms of an if and after the join
 		o3 := offs[verifrt.Choose("off3", len(offs))]
 		w1 := cat(lg(2), []byte{0x2d}, memarg(o1))
